@@ -54,6 +54,9 @@ def base_programs():
     yield "mixed3", ("prog", "exp", "y", ("b", "B", "_b"), ("ret", MULTI))
     yield "digit3", ("prog", "exp", None, ("f10", "f9", "f1"), ("ret", MULTI))
     yield "sharedcond", ("prog", "exp", "s", ("uid", "f"), ("if", ("cmp", ("id", "f"), "in", ("tup", (("lit", 1), ("lit", 2), ("lit", 3)))), ("ret", MULTI), ("else", ("ret", (("Z", "1"), ("Y", "1"))))))
+    # identifiers inside tuple literals are condition fields like any other (not splitters)
+    yield "tuple-ident", ("prog", "exp", "s", ("uid",), ("if", ("cmp", ("id", "country"), "in", ("tup", (("id", "home"), ("lit", "US")))), ("ret", MULTI), ("else", ("ret", (("Z", "1"), ("Y", "1"))))))
+    yield "tuple-ident2", ("prog", "exp", None, ("uid", "f"), ("if", ("cmp", ("tup", (("id", "f"), ("id", "g"))), "==", ("tup", (("lit", 1), ("id", "h")))), ("ret", MULTI), ("elif", ("cmp", ("id", "g"), "not in", ("tup", (("tup", (("id", "h"), ("lit", 2))), ("lit", 3)))), ("ret", MULTI), None)))
     for P in (1, 2, 3):
         for j, sk in enumerate(esh._C(P)):
             yield f"shape{P}.{j}", ("prog", "exp", "k", ("uid",), multi(esh._number(sk, {"p": 0, "r": 0})))
@@ -140,6 +143,16 @@ def check_base(acc, tag, ast, tier):
                 acc.violation({"kind": "dep:extra-kwarg", "sub": "eval", "text": text, "env": enc(dict(sub[0], **{n: v})), "observed": short(repr(got[:3])),
                                "why": f"an undeclared keyword argument {n}={v!r} changed the result (without it: {short(repr(want[:3]))})"})  # fmt: skip
                 break
+    # (1b) the same program written on ONE line with a block comment between all tokens, and on one token per line
+    for sep in (" /* c */ ", "\n", " /* a */ /* b */ "):
+        t2 = rp.render(ast, sep=sep)
+        if rp.classify(t2) == ("accept", ast):
+            b2 = impl.build(t2)
+            acc.add("programs")
+            if b2[0] == "ok":
+                cmp_eq(acc, "layout", text, t2, envs, base, results(b2[1], envs), "the layout of the source (comments / line breaks between the tokens) changed an assignment")
+            else:
+                acc.violation({"kind": "dep:layout", "sub": "build", "text": text, "text2": t2, "observed": list(b2), "why": "the program no longer compiles when it is written with comments between its tokens"})
     # (2) experiment renamed
     # (names the generated code itself uses work as experiment names on the pinned tree; Python reserved words do not -
     # that is known finding KF1 of C07 and they are not used here)
